@@ -125,7 +125,8 @@ func c03Observe(e *executor, r *stepResult, ri *runInfo) {
 var c03TA = &propTest{
 	prop: "C03", unit: "ta-capacity",
 	gen: func(t *rapid.T) *hcCase {
-		return genTACase(t, genOpts{Policy: polTA, MinOps: 12, MaxOps: 45, Reconfig: true, FillPools: true})
+		return genTACase(t, genOpts{Policy: polTA, MinOps: 12, MaxOps: 45, Reconfig: true, FillPools: true,
+			UpdateHeavy: rapid.IntRange(0, 2).Draw(t, "updateHeavy") == 0})
 	},
 	invs:    []invFn{checkTACapacity},
 	observe: c03Observe,
